@@ -38,7 +38,8 @@ def norm(x, depth=0):
     if isinstance(x, Interval):
         return ['IV', x.start, x.end, x.ambiguous, norm(x.mods, depth + 1)]
     if isinstance(x, Fragment):
-        return ['FRAG', x.ion_type, x.start, x.end, x.charge, x.isotope, x.loss, x.mass, x.mz, x.sequence]
+        return ['FRAG', x.ion_type, x.start, x.end, x.charge, x.isotope, x.loss, x.mass, x.mz, x.sequence, x.neutral_mass, x.monoisotopic,
+                x.internal, x.unmod_sequence, norm(getattr(x, 'parent_sequence', None), depth + 1)]
     if isinstance(x, dict):
         return ['DICT', sorted(([repr(k), norm(v, depth + 1)] for k, v in x.items()), key=lambda t: t[0])]
     if isinstance(x, (list, tuple)):
@@ -55,14 +56,26 @@ def snap(a):
 
 
 def scribble(x, depth=0):
-    """edit every mutable thing reachable in a result"""
-    from peptacular.proforma.proforma_parser import ProFormaAnnotation
+    """edit every mutable thing reachable in a result; a result type this function does not know is a harness error (so that a
+    new kind of result cannot slip through unedited)"""
+    import collections
+    from peptacular.proforma.proforma_parser import ProFormaAnnotation, MultiProFormaAnnotation
     from peptacular.proforma.proforma_dataclasses import Mod, Interval
+    from peptacular.fragmentation import Fragment
+    from peptacular.score import FragmentMatch
     from pv.checks.c20 import _scribble
-    if depth > 4:
+    from pv.runner import HarnessError
+    if depth > 5:
+        return
+    if x is None or isinstance(x, (str, bytes, int, float, bool, complex, frozenset, range)):
         return
     if isinstance(x, ProFormaAnnotation):
         _scribble(x)
+    elif isinstance(x, MultiProFormaAnnotation):
+        for a in x.annotations:
+            scribble(a, depth + 1)
+        x.annotations.append(x.annotations[0] if x.annotations else None)
+        x.connections.append(True)
     elif isinstance(x, Mod):
         x.val = 'scribbled'
         x.mult = 99
@@ -72,6 +85,12 @@ def scribble(x, depth=0):
             for m in x.mods:
                 scribble(m, depth + 1)
             x.mods.append(Mod('scribble', 1))
+    elif isinstance(x, Fragment):
+        # a fragment carries peptides: its own and its parent's (strings, or annotations the caller may hold)
+        for name in ('parent_sequence', 'sequence', 'unmod_sequence'):
+            scribble(getattr(x, name, None), depth + 1)
+    elif isinstance(x, FragmentMatch):
+        scribble(x.fragment, depth + 1)
     elif isinstance(x, dict):
         for v in list(x.values()):
             scribble(v, depth + 1)
@@ -80,19 +99,42 @@ def scribble(x, depth=0):
         for v in x:
             scribble(v, depth + 1)
         x.append('scribble')
+    elif isinstance(x, set):
+        x.add('scribble')
     elif isinstance(x, tuple):
         for v in x:
             scribble(v, depth + 1)
+    elif type(x).__module__.startswith('peptacular') and hasattr(x, '__dict__'):
+        for v in list(vars(x).values()):
+            scribble(v, depth + 1)
+    else:
+        raise HarnessError(f'scribble: result of unknown type {type(x).__module__}.{type(x).__name__}')
 
 
 # ---- registry of query calls on an annotation -------------------------------------------------------
+
+# every further container handed to a registered call besides the shared annotation (second annotation, list of annotations, rule
+# dictionaries): run_sequence looks at them again after the call and after the result was edited
+AUX = []
+
 
 def registry():
     import peptacular as pt
 
     def sub(a):
         n = len(a.sequence)
-        return a.slice(0, max(1, n // 2))
+        x = a.slice(0, max(1, n // 2))
+        AUX.append((x, _snap_any(x)))
+        return x
+
+    def lst(*xs):
+        x = list(xs)
+        AUX.append((x, _snap_any(x)))
+        return x
+
+    def dct(**kw):
+        AUX.append((kw, _snap_any(kw)))
+        return kw
 
     R = [
         ('sequence_length', lambda a: pt.sequence_length(a)),
@@ -113,8 +155,10 @@ def registry():
         ('is_subsequence(unordered)', lambda a: pt.is_subsequence(sub(a), a, order=False)),
         ('find_subsequence_indices', lambda a: pt.find_subsequence_indices(a, sub(a))),
         ('find_subsequence_indices(ignore_mods)', lambda a: pt.find_subsequence_indices(a, sub(a), ignore_mods=True)),
-        ('coverage', lambda a: pt.coverage(a, [sub(a)], accumulate=True)),
-        ('percent_coverage', lambda a: pt.percent_coverage(a, [sub(a)])),
+        ('coverage', lambda a: pt.coverage(a, lst(sub(a)), accumulate=True)),
+        ('coverage(ignore_mods)', lambda a: pt.coverage(a, lst(sub(a), sub(a)), ignore_mods=True)),
+        ('percent_coverage', lambda a: pt.percent_coverage(a, lst(sub(a)))),
+        ('percent_coverage(ignore_mods)', lambda a: pt.percent_coverage(a, lst(sub(a)), ignore_mods=True)),
         ('condense_static_mods', lambda a: pt.condense_static_mods(a)),
         ('count_aa', lambda a: pt.count_aa(a)),
         ('is_sequence_valid', lambda a: pt.is_sequence_valid(a)),
@@ -123,6 +167,9 @@ def registry():
         ('combinations_with_replacement', lambda a: pt.combinations_with_replacement(a, 2)),
         ('product', lambda a: pt.product(a, 2)),
         ('mass', lambda a: pt.mass(a)),
+        ('mass(precision)', lambda a: pt.mass(a, precision=1)),
+        ('mod_mass(precision)', lambda a: [pt.mod_mass(m, precision=1) for m in (a.nterm_mods or []) + (a.labile_mods or []) + (a.cterm_mods or [])]),
+        ('mod_comp', lambda a: [pt.mod_comp(m) for m in (a.nterm_mods or []) if not str(m.val).lstrip('+-')[:1].isdigit()]),
         ('mass(b-ion,avg)', lambda a: pt.mass(a, ion_type='b', charge=2, monoisotopic=False)),
         ('mz', lambda a: pt.mz(a, charge=2)),
         ('comp_mass', lambda a: pt.comp_mass(a)),
@@ -141,9 +188,9 @@ def registry():
         ('get_right_semi_enzymatic_sequences', lambda a: list(pt.get_right_semi_enzymatic_sequences(a, return_type='annotation'))),
         ('get_semi_enzymatic_sequences', lambda a: list(pt.get_semi_enzymatic_sequences(a))),
         ('get_non_enzymatic_sequences', lambda a: list(pt.get_non_enzymatic_sequences(a, max_len=2))),
-        ('apply_static_mods', lambda a: pt.apply_static_mods(a, {'K': ['Acetyl']}, nterm_mods='Formula:C2', mode='append')),
-        ('apply_static_mods(annotation)', lambda a: pt.apply_static_mods(a, {'P': [1.5]}, cterm_mods={'': [2]}, return_type='annotation')),
-        ('apply_variable_mods', lambda a: pt.apply_variable_mods(a, {'K': [['Methyl']]}, 1, nterm_mods='Acetyl')),
+        ('apply_static_mods', lambda a: pt.apply_static_mods(a, dct(K=lst('Acetyl')), nterm_mods='Formula:C2', mode='append')),
+        ('apply_static_mods(annotation)', lambda a: pt.apply_static_mods(a, dct(P=lst(1.5)), cterm_mods={'': lst(2)}, return_type='annotation')),
+        ('apply_variable_mods', lambda a: pt.apply_variable_mods(a, dct(K=lst(lst('Methyl'))), 1, nterm_mods='Acetyl')),
         ('apply_variable_mods(annotation,max_mods=0)', lambda a: pt.apply_variable_mods(a, {'[ST]': [['Phospho']]}, 0, return_type='annotation')),
         ('apply_variable_mods(annotation)', lambda a: pt.apply_variable_mods(a, {'[ST]': [['Phospho']]}, 2, return_type='annotation', mode='append')),
         ('serialize', lambda a: pt.serialize(a, include_plus=True)),
@@ -157,6 +204,7 @@ def registry():
         ('a.dict', lambda a: a.dict()),
         ('a.mod_dict', lambda a: a.mod_dict()),
         ('a.copy', lambda a: a.copy()),
+        ('create_multi_annotation', lambda a: pt.create_multi_annotation(lst(a, sub(a)), lst(True))),
         ('a.strip', lambda a: a.strip()),
         ('a.condense_static_mods', lambda a: a.condense_static_mods()),
         ('a.is_subsequence', lambda a: sub(a).is_subsequence(a)),
@@ -177,9 +225,29 @@ NEEDS_UNAMBIGUOUS = {'fragment', 'fragment(losses)', 'Fragmenter.fragment'}
 
 
 def _db_fingerprint():
-    from peptacular.mods.mod_db_setup import UNIMOD_DB, PSI_MOD_DB, XLMOD_DB, MONOSACCHARIDES_DB
-    return [(len(db.id_map), len(db.name_map), len(db.synonym_map), len(db.names_sorted)) for db in
-            (UNIMOD_DB, PSI_MOD_DB, XLMOD_DB, MONOSACCHARIDES_DB)]
+    """content of the process-wide tables every query reads: each entry of the modification databases and the constants"""
+    from peptacular.mods import mod_db_setup as m
+    from peptacular import constants as c
+    out = []
+    for name in ('UNIMOD_DB', 'PSI_MOD_DB', 'XLMOD_DB', 'MONOSACCHARIDES_DB', 'RESID_DB', 'GNO_DB'):
+        db = getattr(m, name)
+        out.append((name, len(db.id_map), len(db.name_map), len(db.synonym_map), len(db.names_sorted),
+                    hash(tuple((k, e.id, e.name, e.mono_mass, e.avg_mass, e.composition, tuple(e.synonyms or ())) for k, e in db.id_map.items())),
+                    hash(tuple(db.name_map)), hash(tuple(db.synonym_map)), hash(tuple(db.names_sorted))))
+    out.append(hash(repr([(n, getattr(c, n)) for n in sorted(dir(c)) if n.isupper() and n != 'PROTEASES_COMPILED' and
+                          isinstance(getattr(c, n), (dict, float, int, str, list, tuple))])))
+    return out
+
+
+def _snap_any(x):
+    from peptacular.proforma.proforma_parser import ProFormaAnnotation
+    if isinstance(x, ProFormaAnnotation):
+        return snap(x)
+    if isinstance(x, list):
+        return ['LIST'] + [_snap_any(v) for v in x]
+    if isinstance(x, dict):
+        return ['DICT'] + [[repr(k), _snap_any(v)] for k, v in x.items()]
+    return repr(x)
 
 
 def run_sequence(r: Result, pep, names, where):
@@ -198,21 +266,29 @@ def run_sequence(r: Result, pep, names, where):
         # the caller's random number generator must be neither consumed nor reseeded
         random.seed(12345)
         st0 = random.getstate()
+        del AUX[:]
         try:
             res = fn(a)
             err = None
         except ValueError as e:
             res, err = None, type(e).__name__
+        aux = list(AUX)
         st1 = random.getstate()
         if st1 != st0:
             r.fail("the caller's random number generator is left alone", f'C08/global-rng-disturbed/{name}', history=done, **ctx)
         after = snap(a)
+        aux_mid = [_snap_any(x) for x, _b in aux]
+        if any(b != m for (_x, b), m in zip(aux, aux_mid)):
+            i = [b != m for (_x, b), m in zip(aux, aux_mid)].index(True)
+            r.fail('a query leaves every argument it was given observably unchanged', f'C08/mutates-argument/{name}/further-argument',
+                   argument=str(aux_mid[i])[:300], expected=str(aux[i][1])[:300], history=done, **ctx)
         if after != before:
             fields = [k for k in before[1] if before[1][k] != after[1][k]] or ['serialization']
             r.fail('a query leaves its annotation argument observably unchanged', f'C08/mutates-argument/{name}/' + '+'.join(fields),
                    before=before[0], after=after[0], history=done, **ctx)
         # same result as the first call on a fresh object
         random.seed(999)
+        del AUX[:]
         try:
             res_f = fn(fresh)
             err_f = None
@@ -224,12 +300,11 @@ def run_sequence(r: Result, pep, names, where):
                        f'C08/history-dependent-result/{name}', history=done, error=err, error_fresh=err_f, **ctx)
         # results share no mutable state with the argument
         if after == before and res is not None:
-            try:
-                scribble(res)
-            except Exception:  # noqa  (immutable results cannot be edited: fine)
-                pass
+            scribble(res)
             if snap(a) != after:
                 r.fail('editing a result never changes what was passed in', f'C08/result-shares-state/{name}', history=done, **ctx)
+            elif [_snap_any(x) for x, _b in aux] != aux_mid:
+                r.fail('editing a result never changes what was passed in', f'C08/result-shares-state/{name}/further-argument', history=done, **ctx)
         # restore the shared object when a call changed it, so that later steps are still explored
         if snap(a) != pristine:
             a = pt.parse(s)
@@ -301,7 +376,8 @@ def triple_strategy():
     names = [n for n, _f in registry()]
     one = gen.mass_mod(('num', 'formula', 'unimod'), max_mult=2)
     st_text = gen.mass_mod_text(('num', 'formula', 'unimod'), gt_ok=False)
-    pm = gen.pep_model(alphabet='ACDEGKMPSTR', min_len=2, max_len=8, kinds=('labile', 'static', 'isotope', 'nterm', 'cterm', 'internal', 'charge'),
+    pm = gen.pep_model(alphabet='ACDEGKMPSTR', min_len=2, max_len=8,
+                       kinds=('labile', 'static', 'isotope', 'nterm', 'cterm', 'internal', 'charge', 'unknown', 'intervals', 'adducts'),
                        mod_strategy=one, mod_list=st.lists(one, min_size=1, max_size=2), allow_empty=False, static_mod_text=st_text,
                        isotopes=['13C', '15N'], rule_targets='ACDEGKMPSTR')
 
@@ -347,10 +423,7 @@ def check_container(case) -> Result:
                        after=repr(args[k])[:300])
         if alias and res is not None:
             mid = copy.deepcopy(args)
-            try:
-                scribble(res)
-            except Exception:  # noqa
-                pass
+            scribble(res)
             for k in args:
                 if repr(args[k]) != repr(mid[k]):
                     r.fail('editing a result never changes what was passed in', f'C08/result-shares-state/{name}/{k}')
@@ -483,15 +556,70 @@ def check_container(case) -> Result:
             if r1 is None:
                 continue
             n1 = norm(r1)
-            try:
-                scribble(r1)
-            except Exception:  # noqa
-                pass
+            scribble(r1)
             r2 = fn()
             if norm(r2) != n1:
                 r.fail('the same query gives the same result whatever was done with an earlier result',
                        f'C08/result-shared-between-calls/{name}', first=str(n1)[:200], second=str(norm(r2))[:200])
     return r
+
+
+# ---- one Fragmenter used for several requests -----------------------------------------------------------
+
+FRAGMENTER_CALLS = [
+    ('b/1', dict(ion_types='b', charges=1)),
+    ('y/1,2 mz', dict(ion_types=['y'], charges=[1, 2], return_type='mz')),
+    ('y/1 precision=0', dict(ion_types='y', charges=1, precision=0)),
+    ('b,y/2 precision=2 mz-label', dict(ion_types=['b', 'y'], charges=2, precision=2, return_type='mz-label')),
+    ('a,c,x,z/1', dict(ion_types=['a', 'c', 'x', 'z'], charges=1)),
+    ('i/1', dict(ion_types='i', charges=1, return_type='mass')),
+    ('internal by/1', dict(ion_types='by', charges=1, return_type='mass-label')),
+    ('b/1 isotopes', dict(ion_types='b', charges=1, isotopes=[0, 1, 2], return_type='mz')),
+    ('y/1 water+ammonia', dict(ion_types='y', charges=1, water_loss=True, ammonia_loss=True, return_type='label')),
+    ('b/1 losses', dict(ion_types='b', charges=1, losses=[('[ST]', -97.9769), ('E', -18.0)], max_losses=2, return_type='mz')),
+    ('p/3', dict(ion_types='p', charges=3, return_type='mz')),
+]
+FRAGMENTER_PEPTIDES = ['PEKTIDES', '[Acetyl]-PEK[Phospho]TIDES-[Amidated]', '<13C><[Carbamidomethyl]@C>{Glycan:Hex}CEM[Oxidation]SK/2',
+                       'S[+79.9]TEDK[Methyl]']
+
+
+def check_fragmenter(case) -> Result:
+    """the second of two requests to one Fragmenter returns what a new Fragmenter returns, and the Fragmenter is as it was"""
+    import peptacular as pt
+    r = Result()
+    s = FRAGMENTER_PEPTIDES[case['pep']]
+    (na, ka), (nb, kb) = FRAGMENTER_CALLS[case['a']], FRAGMENTER_CALLS[case['b']]
+    r.nontrivial = case['a'] != case['b']
+    r.classes = ['fragmenter-pair', f'monoisotopic={case["mono"]}']
+    ctx = dict(peptide=s, first=na, second=nb, monoisotopic=case['mono'])
+    given = pt.parse(s)
+    before = snap(given)
+    fr = pt.Fragmenter(given, monoisotopic=case['mono'])
+    state0 = (snap(fr.annotation), [snap(c) if hasattr(c, 'serialize') else c for c in fr.components], list(fr.mass_components))
+    first = fr.fragment(**copy.deepcopy(ka))
+    n_first = norm(first)
+    if case['edit']:
+        scribble(first)
+    second = fr.fragment(**copy.deepcopy(kb))
+    exp = pt.Fragmenter(pt.parse(s), monoisotopic=case['mono']).fragment(**copy.deepcopy(kb))
+    if norm(second) != norm(exp):
+        r.fail('the same result whether it is the first call on a fresh object or comes after other calls on the same object',
+               'C08/history-dependent-result/Fragmenter.fragment' + ('/after-editing-a-result' if case['edit'] and n_first is not None else ''), **ctx)
+    state1 = (snap(fr.annotation), [snap(c) if hasattr(c, 'serialize') else c for c in fr.components], list(fr.mass_components))
+    if state1 != state0 and not case['edit']:
+        r.fail('a query leaves the object it is called on observably unchanged', 'C08/mutates-argument/Fragmenter.fragment/fragmenter-state', **ctx)
+    if snap(given) != before:
+        r.fail('a query leaves its annotation argument observably unchanged', 'C08/mutates-argument/Fragmenter/annotation', **ctx)
+    return r
+
+
+def fragmenter_cases():
+    for p in range(len(FRAGMENTER_PEPTIDES)):
+        for a in range(len(FRAGMENTER_CALLS)):
+            for b in range(len(FRAGMENTER_CALLS)):
+                for mono in (True, False):
+                    for edit in (False, True):
+                        yield {'pep': p, 'a': a, 'b': b, 'mono': mono, 'edit': edit}
 
 
 def container_strategy():
@@ -573,6 +701,9 @@ def parts(tier):
              space=f'all {nreg}x{nreg} ordered pairs of registered query calls x {n_annot} feature-complete annotations'),
         Part(name='triples', kind='hyp', check_case=check_triple, strategy=triple_strategy, examples=n),
         Part(name='containers', kind='hyp', check_case=check_container, strategy=container_strategy, examples=max(300, n // 3)),
+        Part(name='fragmenter-pairs', kind='enum', check_case=check_fragmenter, cases=fragmenter_cases, exhaustive=True, shards=16,
+             space=f'all {len(FRAGMENTER_CALLS)}x{len(FRAGMENTER_CALLS)} ordered pairs of Fragmenter.fragment requests on one Fragmenter x '
+                   f'{len(FRAGMENTER_PEPTIDES)} peptides x monoisotopic/average x (first result edited or not)'),
         Part(name='reload-databases', kind='enum', check_case=check_reload, cases=reload_cases, exhaustive=True, shards=3,
              space='reload_all_databases() called 1, 2 and 3 times in a fresh process'),
     ]
